@@ -339,6 +339,7 @@ fn recovery_script(
     rep.count("recoveries", 1);
 
     // ---- state right after recovery
+    let present_after_replay: Vec<u64> = model.keys().copied().filter(|tx| coord.get(*tx).is_some()).collect();
     for (&tx, t) in model {
         let n = names.n(tx);
         let got = votes_of(coord, tx);
@@ -480,7 +481,7 @@ fn recovery_script(
                     continue;
                 }
                 let Some(cur) = coord.get(tx) else {
-                    if ran_recover {
+                    if ran_recover && present_after_replay.contains(&tx) {
                         out.push(Found { sig: "voted-tx-lost-by-recover".into(), detail: format!("{} disappeared during recover()", n) });
                     }
                     continue; // absence right after recover_from_wal was reported above
@@ -931,8 +932,91 @@ fn run_case(args: &Args, case_seed: u64, rep: &mut Report) {
     }
 }
 
+/// `c13 witness`: the two defects found on the pinned tree as hand-written minimal sequences
+/// against the real code (prints what happens; no oracle involved).
+fn witness(args: &Args) {
+    let yes = |h: u64| PrepareVote::Yes { lock_handle: h, delta: DeltaVector::zero(DIM) };
+    let who = "coord".to_string();
+    for cut in [3usize, 0] {
+        let dir = args.scratch_dir("c13w");
+        let path = dir.join("tx.wal");
+        println!("--- torn tail then append: log cut {} bytes before its end{}", cut, if cut == 0 { " (control: no torn record)" } else { "" });
+        {
+            let c = new_coordinator(TxWal::open(&path).unwrap());
+            let t0 = c.begin(&who, &[0, 1]).unwrap().tx_id;
+            println!("epoch 0: begin(t0) vote s0 yes -> {:?}; vote s1 yes -> {:?}", c.record_vote(t0, 0, yes(11)), c.record_vote(t0, 1, yes(12)));
+        }
+        let bytes = std::fs::read(&path).unwrap();
+        std::fs::write(&path, &bytes[..bytes.len() - cut]).unwrap();
+        println!("crash: {} of {} bytes survive (the PhaseChange->Prepared record is {})", bytes.len() - cut, bytes.len(), if cut == 0 { "complete" } else { "torn" });
+        let t1;
+        {
+            let c = new_coordinator(TxWal::open(&path).unwrap());
+            println!("epoch 1: recover_from_wal -> {:?}", c.recover_from_wal().map(|s| (s.pending_prepare, s.pending_commit, s.pending_abort)));
+            t1 = c.begin(&who, &[0, 1]).unwrap().tx_id;
+            let a = c.record_vote(t1, 0, yes(21));
+            let b = c.record_vote(t1, 1, yes(22));
+            println!("epoch 1: begin(t1) votes -> {:?} {:?}; commit(t1) -> {:?}  (acknowledged: TxComplete(Committed) was appended and fsynced)", a, b, c.commit(t1));
+        }
+        {
+            let c = new_coordinator(TxWal::open(&path).unwrap());
+            println!("epoch 2: recover_from_wal -> {:?}", c.recover_from_wal().map(|s| (s.pending_prepare, s.pending_commit, s.pending_abort)).map_err(|e| e.to_string()));
+            println!("epoch 2: get(t1) -> {:?}", c.get(t1).map(|t| t.phase));
+        }
+    }
+    {
+        let dir = args.scratch_dir("c13w");
+        let path = dir.join("tx.wal");
+        println!("--- torn record header then append: a logged commit is forgotten and can be reversed");
+        let t0;
+        {
+            let c = new_coordinator(TxWal::open(&path).unwrap());
+            t0 = c.begin(&who, &[0, 1]).unwrap().tx_id;
+            println!("epoch 0: t0 votes -> {:?} {:?}", c.record_vote(t0, 0, yes(11)), c.record_vote(t0, 1, yes(12)));
+            let before = file_len(&path);
+            let _ = c.begin(&who, &[0, 1]);
+            let bytes = std::fs::read(&path).unwrap();
+            std::fs::write(&path, &bytes[..before + 2]).unwrap();
+            println!("crash while TxBegin(t1) is being written: 2 bytes of its header survive ({} bytes)", before + 2);
+        }
+        {
+            let c = new_coordinator(TxWal::open(&path).unwrap());
+            println!("epoch 1: recover_from_wal -> {:?}; t0 is {:?}", c.recover_from_wal().map(|s| s.pending_prepare).map_err(|e| e.to_string()), c.get(t0).map(|t| t.phase));
+            println!("epoch 1: commit(t0) -> {:?}  (TxComplete(t0, Committed) appended and fsynced)", c.commit(t0));
+        }
+        {
+            let c = new_coordinator(TxWal::open(&path).unwrap());
+            println!("epoch 2: recover_from_wal -> {:?}; t0 is {:?}", c.recover_from_wal().map(|s| s.pending_prepare).map_err(|e| e.to_string()), c.get(t0).map(|t| t.phase));
+            println!("epoch 2: abort(t0) -> {:?}", c.abort(t0, "late abort"));
+        }
+    }
+    {
+        let dir = args.scratch_dir("c13w");
+        let path = dir.join("tx.wal");
+        println!("--- a vote the coordinator rejected replaces the accepted one after restart");
+        let t0;
+        {
+            let c = new_coordinator(TxWal::open(&path).unwrap());
+            t0 = c.begin(&who, &[0, 1]).unwrap().tx_id;
+            println!("vote s0 yes(handle 11) -> {:?}", c.record_vote(t0, 0, yes(11)));
+            println!("vote s1 yes(handle 12) -> {:?}", c.record_vote(t0, 1, yes(12)));
+            println!("late duplicate vote s1 no -> {:?}", c.record_vote(t0, 1, PrepareVote::No { reason: "prepare timeout".into() }));
+            println!("before the crash: {:?}", votes_of(&c, t0));
+        }
+        let c = new_coordinator(TxWal::open(&path).unwrap());
+        println!("restart: recover_from_wal -> {:?}", c.recover_from_wal().map(|s| s.pending_prepare).map_err(|e| e.to_string()));
+        println!("after the restart: {:?}", votes_of(&c, t0));
+        let r = c.recover();
+        println!("recover() -> pending_commit {} pending_abort {}; phase now {:?}", r.pending_commit, r.pending_abort, c.get(t0).map(|t| t.phase));
+    }
+}
+
 fn main() {
     let args = Args::parse();
+    if args.rest.iter().any(|a| a == "witness") {
+        witness(&args);
+        return;
+    }
     let started = Instant::now();
     quiet_panics();
     let mut total = Report::new();
